@@ -166,9 +166,11 @@ static inline bool vh_mine(uint64_t idx) { return (idx % (uint64_t) vh_nshards) 
 static sigjmp_buf *vh_assert_jmp;       /* when set, library assert() failures longjmp here */
 static char vh_assert_msg[512];
 static volatile int vh_in_fatal;
+static int vh_assert_exit_code;       /* when non-zero: a library assert() ends the process quietly with this status (expected-abort cases run in a child) */
 void __assert_fail(const char *expr, const char *file, unsigned int line, const char *func) {
 	snprintf(vh_assert_msg, sizeof vh_assert_msg, "assertion `%s' failed at %s:%u (%s)", expr, file, line, func);
 	if (vh_assert_jmp) { sigjmp_buf *j = vh_assert_jmp; vh_assert_jmp = NULL; siglongjmp(*j, 1); }
+	if (vh_assert_exit_code) _exit(vh_assert_exit_code);
 	if (!vh_in_fatal) {
 		vh_in_fatal = 1;
 		char w[1024]; snprintf(w, sizeof w, "unexpected fatal %s", vh_assert_msg);
